@@ -6,6 +6,20 @@
  */
 #include "vh.h"
 #include "igzip_lib.h"
+static const char *
+hstate_name(int b)
+{
+        switch (b) {
+        case ISAL_BLOCK_NEW_HDR: return "NEW_HDR";
+        case ISAL_GZIP_EXTRA_LEN: return "GZIP_EXTRA_LEN";
+        case ISAL_GZIP_EXTRA: return "GZIP_EXTRA";
+        case ISAL_GZIP_NAME: return "GZIP_NAME";
+        case ISAL_GZIP_COMMENT: return "GZIP_COMMENT";
+        case ISAL_GZIP_HCRC: return "GZIP_HCRC";
+        case ISAL_ZLIB_DICT: return "ZLIB_DICT";
+        default: return "?";
+        }
+}
 static FILE *out;
 
 static void
@@ -163,6 +177,7 @@ reader(FILE *in)
         fprintf(out, "{\"t\":\"read\",\"id\":%d,\"kind\":%d,\"steps\":[", id, kind);
         for (calls = 0; calls < 100000; calls++) {
                 uint32_t ai0;
+                int bs0;
                 if (st->avail_in == 0 && fed < (size_t) nbytes) {
                         size_t n = ci < nchunks ? (size_t) chunks[ci] : (size_t) nbytes - fed;
                         ci++;
@@ -179,10 +194,12 @@ reader(FILE *in)
                 }
                 ai0 = st->avail_in;
                 faulted = 0;
+                bs0 = st->block_state;
                 VH_TRY { ret = kind == 0 ? isal_read_gzip_header(st, &gh) : isal_read_zlib_header(st, &zh); }
                 VH_CATCH { faulted = 1; }
                 VH_DONE;
-                fprintf(out, "%s[%d,%u,%u,%d]", calls ? "," : "", ret, ai0, ai0 - st->avail_in, faulted);
+                fprintf(out, "%s[%d,%u,%u,%d,\"%s\",\"%s\",%d]", calls ? "," : "", ret, ai0, ai0 - st->avail_in, faulted, hstate_name(bs0),
+                        hstate_name(st->block_state), st->wrapper_flag != 0);
                 if (faulted || ret < 0 || ret == ISAL_DECOMP_OK)
                         break;
                 if (ret == ISAL_END_INPUT) {
